@@ -275,6 +275,11 @@ func corrCodec(prop string, outDir string, seed uint64, tier string, withEdits b
 			return
 		}
 		inScope := tc.class && tc.gt != nil && presentable(tc.gt, p)
+		if !inScope && (uerr != nil || !deepEq(p, q)) && lastCaseMeta != nil && lastCaseMeta["hash"] == s {
+			// search support (hand-written and out-of-class shapes): the round trip fails here; it is reported as
+			// the failing input if, and only if, the implementation disagrees with the model on this very string
+			lastCaseMeta["property_fails"] = fmt.Sprintf("Marshal(%+v) = %q; Unmarshal of it: %v %+v", p.Elem().Interface(), s, uerr, q.Elem().Interface())
+		}
 		if inScope {
 			rep.bump("roundtrip_in_class")
 			if uerr != nil || !deepEq(p, q) {
